@@ -16,8 +16,30 @@ ASSUME = [
 ]
 
 
+def translate(ctx: Ctx) -> bool:
+    """the operation handlers (policy/handlers.py), regenerated from the tree under test (fail closed)"""
+    import tr_handlers
+    from lib.vf import REPO
+    try:
+        files, meta = tr_handlers.gen(str(REPO))
+    except Exception as e:
+        ctx.prepare_coq()
+        for f in (ctx.coq / "gen").glob("HandlersSrc.*"):
+            f.unlink()
+        ctx.broken.append("translator tools/tr_handlers.py rejects %s: %s" % (tr_handlers.SRC, str(e)[:300]))
+        ctx.obligations += 1
+        ctx.cov["translators"] = {"tr_handlers": {"files": [tr_handlers.SRC], "rejected": str(e)[:300]}}
+        return False
+    for n, t in files.items():
+        ctx.write_gen(n, t)
+    ctx.cov["translators"] = {"tr_handlers": {"files": [tr_handlers.SRC], "rejected": None, "functions": meta["functions"],
+                                              "table": meta["table"]}}
+    return True
+
+
 def run(ctx: Ctx) -> int:
-    return c05.run(ctx, which="C06", props=["theories/Props/C06.v"], assume=ASSUME)
+    props = ["theories/Props/C06.v"] + (["theories/Props/C06_handlers.v"] if translate(ctx) else [])
+    return c05.run(ctx, which="C06", props=props, assume=ASSUME)
 
 
 def replay(ctx, path):
